@@ -93,7 +93,7 @@ def parse_cdl(text):
                 res['dims'].append((n, None, cur_n))
             else: res['dims'].append((n, int(v), int(v)))
         elif sec in ('VARIABLES', 'GATTS'):
-            m = re.match(r'^([A-Za-z_0-9\\.\-+@]*):([^=\s]+)\s*=\s*(.*)$', st, re.S)
+            m = re.match(r'^((?:[^\s:=(\\]|\\.)*):([^=\s]+)\s*=\s*(.*)$', st, re.S)       # the variable name may be any UTF-8 identifier
             if m and (m.group(1) == '' or '(' not in st.split('=')[0]) and not re.match(r'^(byte|char|short|int|float|double|ubyte|ushort|uint|int64|uint64)\s', st):
                 var, an, vals = m.group(1), m.group(2), parse_values(m.group(3))
                 (res['gatts'] if var == '' else res['vatts'].setdefault(var, [])).append((an, vals))
@@ -451,8 +451,10 @@ def main(tier=None, only=None):
         gen = p + '.gen.nc'
         rc3, out3 = run([U['ncmpigen'], '-v', str(f.version), '-o', gen, cdlp])
         ext = any(a.xtype > 6 for a in f.gatts) or any(a.xtype > 6 for v in f.vars for a in v.atts)
+        names = [d.name for d in f.dims] + [a.name for a in f.gatts] + [v.name for v in f.vars] + [a.name for v in f.vars for a in v.atts]
+        nonascii = any(ord(ch) > 127 for n in names for ch in (n.decode('utf-8', 'replace') if isinstance(n, bytes) else n))
         if rc3 != 0 or not os.path.exists(gen):
-            V(('tool', 'ncmpigen', 'cannot parse the dump' + (' (CDF-5 attribute constants)' if ext else '')), label, '%s: ncmpigen fails on the CDL printed by ncmpidump (rc=%d): %s' % (label, rc3, out3[:200]))
+            V(('tool', 'ncmpigen', 'cannot parse the dump' + (' (CDF-5 attribute constants)' if ext else ' (non-ASCII names)' if nonascii and 'syntax error' in out3 else '')), label, '%s: ncmpigen fails on the CDL printed by ncmpidump (rc=%d): %s' % (label, rc3, out3[:200]))
         else:
             try:
                 g = cdf.decode(open(gen, 'rb').read())
